@@ -661,6 +661,33 @@ pub fn exec_map<const N: usize>(cage: &mut Cage<Map<Key, Val, N>>, op: &Value, c
             ctx.span = cage.span();
             json!({"cl": cl, "then": then_ret, "other": other})
         }
+        "clone_from" => {
+            let mut dst = Cage::new(Map::<Key, Val, N>::new());
+            for (idx, e) in op["dst"].as_array().unwrap().iter().enumerate() {
+                let k = Key::new(e["c"].as_u64().unwrap() as u8, e["r"].as_u64().unwrap() as u8);
+                let v = Val::new(e["v"].as_u64().unwrap() as u8);
+                ctx.tags.bind_k(60 + idx as i64 + 1, k.serial);
+                ctx.tags.bind_v(60 + idx as i64 + 1, v.serial);
+                dst.m.insert(k, v);
+            }
+            let src = &cage.m;
+            let d = &mut dst.m;
+            if call(ctx, || d.clone_from(src)).is_none() {
+                let _ = call(ctx, || drop(dst));
+                return json!(["panic"]);
+            }
+            bind_clones(ctx, cage.m.iter().flat_map(|(k, v)| [k.serial, v.serial]).collect());
+            let cl: Vec<Value> = dst.m.iter().map(|(k, v)| ctx.je(k, v)).collect();
+            let (x, y) = (&dst.m, &cage.m);
+            let eq = call(ctx, || x == y) == Some(true) && call(ctx, || y == x) == Some(true);
+            if !dst.intact() || dst.m.len() > N {
+                ctx.note("C15,C03", "memory outside the destination of clone_from was written".into());
+                std::mem::forget(dst);
+            } else {
+                let _ = call(ctx, || drop(dst));
+            }
+            json!({"cl": cl, "eq": eq})
+        }
         "serde" => {
             let fmt = s(op, "fmt");
             let mcap = i(op, "m") as usize;
@@ -1087,6 +1114,8 @@ fn fmt_map<const N: usize>(m: &Map<Key, Val, N>, style: &str, ctx: &mut Ctx) -> 
     let r = match style {
         "debug" => call(ctx, || write!(sink, "{:?}", m)),
         "alt" => call(ctx, || write!(sink, "{:#?}", m)),
+        "debug_w" => call(ctx, || write!(sink, "{:<14?}", m)),
+        "display_w" => call(ctx, || write!(sink, "{:>40}", m)),
         _ => call(ctx, || write!(sink, "{}", m)),
     };
     if r.is_none() {
@@ -1095,12 +1124,21 @@ fn fmt_map<const N: usize>(m: &Map<Key, Val, N>, style: &str, ctx: &mut Ctx) -> 
     let expect = match style {
         "debug" => format!("{:?}", AsMap(&seq)),
         "alt" => format!("{:#?}", AsMap(&seq)),
+        "debug_w" => format!("{:<14?}", AsMap(&seq)),
         _ => {
             let parts: Vec<String> = seq.iter().map(|(k, v)| format!("{k}: {v}")).collect();
             format!("{{{}}}", parts.join(", "))
         }
     };
-    if sink.overflow || sink.as_str() != expect {
+    // with a width in the format spec the property does not say whether the flags reach the
+    // elements: both renderings of the ENTRIES are accepted, padding of the whole is not
+    let alt = if style == "display_w" {
+        let parts: Vec<String> = seq.iter().map(|(k, v)| format!("{k:>40}: {v:>40}")).collect();
+        format!("{{{}}}", parts.join(", "))
+    } else {
+        expect.clone()
+    };
+    if sink.overflow || (sink.as_str() != expect && sink.as_str() != alt) {
         ctx.note("C19", format!("Map {style} rendering is {:?}, expected {:?}", sink.as_str(), expect));
     }
     let ents: Vec<Value> = seq.iter().map(|(k, v)| ctx.je(k, v)).collect();
@@ -1329,6 +1367,31 @@ pub fn exec_set<const N: usize>(cage: &mut Cage<Set<Key, N>>, op: &Value, ctx: &
             ctx.span = cage.span();
             json!({"cl": cl, "then": then_ret, "other": other})
         }
+        "s_clone_from" => {
+            let mut dst = Cage::new(Set::<Key, N>::new());
+            for (idx, e) in op["dst"].as_array().unwrap().iter().enumerate() {
+                let k = Key::new(e["c"].as_u64().unwrap() as u8, e["r"].as_u64().unwrap() as u8);
+                ctx.tags.bind_k(60 + idx as i64 + 1, k.serial);
+                dst.m.insert(k);
+            }
+            let src = &cage.m;
+            let d = &mut dst.m;
+            if call(ctx, || d.clone_from(src)).is_none() {
+                let _ = call(ctx, || drop(dst));
+                return json!(["panic"]);
+            }
+            bind_clones(ctx, cage.m.iter().map(|k| k.serial).collect());
+            let cl: Vec<Value> = dst.m.iter().map(|k| ctx.je_set(k)).collect();
+            let (x, y) = (&dst.m, &cage.m);
+            let eq = call(ctx, || x == y) == Some(true) && call(ctx, || y == x) == Some(true);
+            if !dst.intact() || dst.m.len() > N {
+                ctx.note("C15,C03", "memory outside the destination of clone_from was written".into());
+                std::mem::forget(dst);
+            } else {
+                let _ = call(ctx, || drop(dst));
+            }
+            json!({"cl": cl, "eq": eq})
+        }
         "serde" => {
             let fmt = s(op, "fmt");
             let mcap = i(op, "m") as usize;
@@ -1371,6 +1434,8 @@ pub fn exec_set<const N: usize>(cage: &mut Cage<Set<Key, N>>, op: &Value, ctx: &
             let r = match style {
                 "debug" => call(ctx, || write!(sink, "{:?}", m)),
                 "alt" => call(ctx, || write!(sink, "{:#?}", m)),
+                "debug_w" => call(ctx, || write!(sink, "{:<14?}", m)),
+                "display_w" => call(ctx, || write!(sink, "{:>40}", m)),
                 _ => call(ctx, || write!(sink, "{}", m)),
             };
             if r.is_none() {
@@ -1379,12 +1444,19 @@ pub fn exec_set<const N: usize>(cage: &mut Cage<Set<Key, N>>, op: &Value, ctx: &
             let expect = match style {
                 "debug" => format!("{:?}", AsSet(&seq)),
                 "alt" => format!("{:#?}", AsSet(&seq)),
+                "debug_w" => format!("{:<14?}", AsSet(&seq)),
                 _ => {
                     let parts: Vec<String> = seq.iter().map(|k| format!("{k}")).collect();
                     format!("{{{}}}", parts.join(", "))
                 }
             };
-            if sink.overflow || sink.as_str() != expect {
+            let alt = if style == "display_w" {
+                let parts: Vec<String> = seq.iter().map(|k| format!("{k:>40}")).collect();
+                format!("{{{}}}", parts.join(", "))
+            } else {
+                expect.clone()
+            };
+            if sink.overflow || (sink.as_str() != expect && sink.as_str() != alt) {
                 ctx.note("C19", format!("Set {style} rendering is {:?}, expected {:?}", sink.as_str(), expect));
             }
             let ents: Vec<Value> = seq.iter().map(|k| ctx.je_set(k)).collect();
